@@ -165,3 +165,62 @@ package testdirectory
 //@   invariant foundAttr == nil ==> forall(j, 0, rangeindex__2 + 1, e.Attributes[j].Name != chg.Modification.Type)
 //@   invariant foundAttr != nil ==> 0 <= foundAt && foundAt <= rangeindex__2 && foundAttr == e.Attributes[foundAt] && foundAttr.Name == chg.Modification.Type
 //@   modifies nothing
+
+// ---- C18 ---------------------------------------------------------------------------------
+// The client-certificate policy of the test directory: with WithMTLS the
+// server configuration demands and verifies a client certificate against a
+// non-nil pool.
+//@ func testdirectory.GetTLSConfig
+//@   shapes WithMTLS
+//@   ensures  s != nil && c != nil
+//@   ensures  has_WithMTLS ==> s.ClientAuth == tls.RequireAndVerifyClientCert && s.ClientCAs != nil
+//@   tags C18
+// A-TEST / A-CRYPTO: the certificate plumbing is opaque: these functions return
+// arbitrary values, do not touch verified state and are assumed not to panic;
+// require.NoError returns only when err is nil (it ends the test otherwise).
+//@ func testdirectory.genCert
+//@   trusted
+//@   panics false
+//@   modifies nothing
+//@ func testdirectory.genSerialNumber
+//@   trusted
+//@   panics false
+//@   modifies nothing
+//@ extern github.com/stretchr/testify/require.New
+//@   params t require.TestingT
+//@   results a *require.Assertions
+//@   ensures a != nil
+//@   panics false
+//@ extern (*github.com/stretchr/testify/require.Assertions).NoError
+//@   params a *require.Assertions, err error, msgAndArgs []interface{}
+//@   ensures isNilIface(err)
+//@   panics false
+//@ extern crypto/ecdsa.GenerateKey
+//@   params c elliptic.Curve, rnd io.Reader
+//@   results k *ecdsa.PrivateKey, err error
+//@   ensures isNilIface(err) ==> k != nil
+//@   panics false
+//@ extern crypto/elliptic.P521
+//@   panics false
+//@ extern crypto/x509.CreateCertificate
+//@   panics false
+//@ extern encoding/pem.Encode
+//@   panics false
+//@ extern crypto/x509.MarshalPKCS8PrivateKey
+//@   panics false
+//@ extern time.Now
+//@   panics false
+//@ extern (time.Time).AddDate
+//@   panics false
+//@ extern net.IPv4
+//@   panics false
+//@ extern net.ParseIP
+//@   panics false
+//@ extern crypto/x509.NewCertPool
+//@   results p *x509.CertPool
+//@   ensures p != nil
+//@   panics false
+//@ extern (*crypto/x509.CertPool).AppendCertsFromPEM
+//@   panics false
+//@ extern math/big.NewInt
+//@   panics false
